@@ -196,7 +196,7 @@ class Exec:
             p, v = s.src.gconsts[name][0]
             return s.module_const(p, name)
         if name in BUILTINS: return Fn('builtin', name=name, py=BUILTINS[name])
-        if name in ('numpy', 'optimize', 'pandas', 'joblib', 'json', 'datetime', 'attr', 'typing', 'Path'): return ModRef(name)
+        if name in ('numpy', 'optimize', 'pandas', 'joblib', 'json', 'datetime', 'attr', 'typing', 'Path', 'sys', 'math'): return ModRef(name)
         raise Unsupported("name %s" % name, node, path)
 
     def module_const(s, path, name):
@@ -215,8 +215,8 @@ class Exec:
         return s.eval(node, {'__path__': path})
 
     # ------------------------------------------------------------------ calls
-    def bind(s, fdef, args, kwargs, self_obj=None, cls=None):
-        env = {'__path__': s.src.path_of(fdef)}
+    def bind(s, fdef, args, kwargs, self_obj=None, cls=None, path=None):
+        env = {'__path__': path or s.src.path_of(fdef)}
         a = fdef.args
         if a.vararg or a.kwarg or a.kwonlyargs or a.posonlyargs:
             raise Unsupported("signature of %s" % fdef.name, fdef, env['__path__'])
@@ -314,6 +314,19 @@ class Exec:
             if len(ps) != len(args) or kwargs: raise Unsupported("lambda call arity", f.node)
             for p, a in zip(ps, args): env[p] = a
             return s.eval(f.node.body, env)
+        if k == 'closure':
+            # nested def: free names are read from the defining environment as it is at call time, writes stay local
+            env = dict(f.env)
+            env.update(s.bind(f.node, args, kwargs, path=f.env.get('__path__')))
+            if len(s.stack) > 40: raise Unsupported("call depth (recursion?) at nested %s" % f.node.name, f.node)
+            s.stack.append("<nested %s>" % f.node.name)
+            try:
+                s.block(f.node.body, env)
+            except Ret as r:
+                return r.v
+            finally:
+                s.stack.pop()
+            return None
         if k == 'func': return s.call_function(f.node, args, kwargs)
         if k == 'method': return s.call_function(f.node, args, kwargs, self_obj=f.self)
         if k == 'classmethod': return s.call_function(f.node, args, kwargs, cls=f.name)
@@ -364,6 +377,12 @@ class Exec:
         if isinstance(st, ast.Expr):
             if isinstance(st.value, ast.Constant): return          # docstring / string statement
             s.eval(st.value, env); return
+        if isinstance(st, ast.FunctionDef):
+            if st.decorator_list: raise Unsupported("decorated nested function", st, env.get('__path__'))
+            for n in ast.walk(st):
+                if isinstance(n, (ast.Nonlocal, ast.Global, ast.Yield, ast.YieldFrom)): raise Unsupported("nonlocal/global/yield in nested function", n, env.get('__path__'))
+            env[st.name] = Fn('closure', st, env=env)
+            return
         if isinstance(st, ast.Return): raise Ret(s.eval(st.value, env) if st.value is not None else None)
         if isinstance(st, ast.Assign):
             v = s.eval(st.value, env)
@@ -576,6 +595,14 @@ class Exec:
             if b.name == 'numpy.linalg' and attr == 'lstsq': return Fn('builtin', name='numpy.linalg.lstsq', py=_ext('numpy.linalg.lstsq'))
             if b.name == 'optimize' and attr == 'minimize': return Fn('builtin', name='optimize.minimize', py=_ext('optimize.minimize'))
             if b.name == 'datetime': return Opaque('datetime.' + attr)
+            if b.name == 'sys' and attr == 'float_info': return ModRef('sys.float_info')
+            if b.name == 'sys.float_info' and attr in ('epsilon', 'max', 'min'):
+                import sys as _sys
+                from fractions import Fraction as _Fr
+                return lift(_Fr(getattr(_sys.float_info, attr)))
+            if b.name == 'math':
+                if attr in ('exp', 'log', 'sqrt') and attr in NUMPY: return Fn('builtin', name='math.' + attr, py=NUMPY[attr])
+                if attr == 'inf': return INF
             raise Unsupported("%s.%s" % (b.name, attr), node)
         if isinstance(b, Obj):
             if attr in b.f: return b.f[attr]
